@@ -222,3 +222,37 @@ def astype_boolean_key(rec, params):
     if k and k[0] == 'iloc':
         k = k[1]
     return bool(k) and k[0] in ('mask', 'bseries')
+
+
+@classifier
+def c06_reflected_logical(rec, params):
+    cs = (rec.get('case') or {}).get('cs') or {}
+    act = rec.get('actual') or {}
+    return cs.get('op') == 'f_scalar' and cs.get('reflected') and cs.get('fn') in ('and', 'or') and act.get('k') == 'err'
+
+
+@classifier
+def c06_logical_unaligned(rec, params):
+    cs = (rec.get('case') or {}).get('cs') or {}
+    act = rec.get('actual') or {}
+    if cs.get('fn') not in ('and', 'or') or act.get('k') != 'err' or cs.get('op') not in ('s_binop', 'f_binop', 'fs_binop'):
+        return False
+    import json
+    S = lambda ls: {json.dumps(l) for l in ls}
+    a, b = cs['a'], cs['b']
+    if cs['op'] == 's_binop':
+        return S(a['index']) != S(b['index'])
+    if cs['op'] == 'f_binop':
+        return S(a['index']) != S(b['index']) or S(a['columns']) != S(b['columns'])
+    return S(a['columns']) != S(b['index'])
+
+
+@classifier
+def c06_empty_operand(rec, params):
+    cs = (rec.get('case') or {}).get('cs') or {}
+    act = rec.get('actual') or {}
+    if act.get('k') != 'err' or cs.get('op') not in ('f_binop', 'fs_binop'):
+        return False
+    a, b = cs['a'], cs['b']
+    empty = lambda x: any(len(x.get(k, [0])) == 0 for k in ('index', 'columns') if k in x)
+    return empty(a) or empty(b)
